@@ -68,6 +68,54 @@ def is_self_call(node, attr: str) -> bool:
             and node.value.func.attr == attr and is_name(node.value.func.value, "self"))
 
 
+def _is_logging(st) -> bool:
+    if isinstance(st, ast.Expr) and isinstance(st.value, ast.Call) and isinstance(st.value.func, ast.Attribute) \
+            and isinstance(st.value.func.value, ast.Name) and st.value.func.value.id.startswith("_LOGGER"):
+        return True
+    if isinstance(st, ast.If) and is_name(st.test, "debug") and not st.orelse and all(_is_logging(x) for x in st.body):
+        return True
+    if isinstance(st, ast.Assign) and len(st.targets) == 1 and is_name(st.targets[0], "debug"):
+        return True
+    return False
+
+
+def _strip_logging(stmts):
+    out = []
+    for st in stmts:
+        if _is_logging(st):
+            continue
+        if isinstance(st, ast.Expr) and isinstance(st.value, ast.Constant) and isinstance(st.value.value, str):
+            continue  # docstring
+        st = ast.fix_missing_locations(ast.parse(ast.unparse(st)).body[0])  # private copy
+        for node in ast.walk(st):
+            for field in ("body", "orelse", "finalbody"):
+                sub = getattr(node, field, None)
+                if isinstance(sub, list) and sub and isinstance(sub[0], ast.stmt):
+                    kept = [x for x in sub if not _is_logging(x)]
+                    setattr(node, field, kept or ([ast.Pass()] if field == "body" else []))
+        out.append(st)
+    return out
+
+
+def on_data_prefix_check(fn: ast.FunctionDef, send_idx: int, cap: int) -> None:
+    """Everything `_on_data` does before the pinned send statement must be exactly the known skeleton (logging
+    apart): any other statement - e.g. per-requester state - is outside the model and must not pass silently."""
+    got = [ast.unparse(st) for st in _strip_logging(fn.body[:send_idx])]
+    want = [
+        "assert self._transport",
+        "if request_line != 'M-SEARCH * HTTP/1.1' or headers.get_lower('man') != SSDP_DISCOVER:\n    return",
+        "remote_addr = headers.get_lower('_remote_addr')",
+        "mx_header = headers.get_lower('mx')",
+        "delay = 0",
+        f"if mx_header is not None:\n    try:\n        delay = min({cap}, int(mx_header))\n    except ValueError:\n        pass",
+        "if not (responses := self._build_responses(headers)):\n    return",
+        "remote_addr = headers.get_lower('_remote_addr')",
+    ]
+    if got != want:
+        diff = [g for g in got if g not in want] + [f"(missing) {w}" for w in want if w not in got]
+        raise Untranslatable("_on_data does something outside the modelled skeleton: " + " | ".join(d.replace("\n", " ") for d in diff)[:400])
+
+
 def on_data_shape(fn: ast.FunctionDef):
     # delay = min(CAP, int(mx_header))
     caps = []
@@ -142,6 +190,7 @@ def on_data_shape(fn: ast.FunctionDef):
         raise Untranslatable("cannot find the immediate _send_responses next to the delayed one")
     if rest:
         raise Untranslatable("statements after the send in _on_data")
+    on_data_prefix_check(fn, idx, caps[0])
     return caps[0], lo, off, guard_truthy, send_now_also
 
 
